@@ -235,12 +235,20 @@ def meas_dep(ctx):
         ctx.touch(jac)
         # attribute -> callee parameter
         bound = {}
+
+        def attrs_of(e):
+            # attributes the argument carries: read directly, or through locals it depends on
+            out = set(_self_attrs(e))
+            for n in ast.walk(e):
+                if isinstance(n, ast.Name) and n.id not in m.params and n.id != 'self':
+                    out |= _deps(m.node, n.id, m.params)[1]
+            return out
         for i, a in enumerate(call.args):
-            for at in _self_attrs(a):
+            for at in attrs_of(a):
                 if i + 1 < len(jac.params):
                     bound[at] = jac.params[i + 1]
         for kw in call.keywords:
-            for at in _self_attrs(kw.value):
+            for at in attrs_of(kw.value):
                 bound[at] = kw.arg
         for at in sorted(zattrs):
             ctx.ob('MEAS-DEP', at in bound, None,
